@@ -4,9 +4,13 @@ C01 - model of `verifier.Verify` / `verifier.VerifyBlob` (verifier/verifier.go) 
 overridable, then the remaining validations (C02), then payload decoding, the comparison of the
 signed target descriptor with the artifact under verification, and the required user metadata.
 
+The registry entry point `notation.Verify` (notation.go) is modelled in front of it: the reference
+is resolved by the repository, a DIGEST reference must name exactly the digest of the descriptor the
+repository answers with, and the signatures are verified against that descriptor.
+
 Parameters (modelled, not verified): the outcome of notation-core-go's `ParseEnvelope` and
-`Verify()` (`parseOk`, `integrityOk`), and encoding/json's decoding of the payload into
-`envelope.Payload` (`decoded`).
+`Verify()` (`parseOk`, `integrityOk`), encoding/json's decoding of the payload into
+`envelope.Payload` (`decoded`), and what `Repository.Resolve` answers (`resolveOk`, `artifact`).
 -/
 import NotationModel.Basic
 import NotationModel.Model.C02
@@ -34,13 +38,19 @@ structure Input where
   payloadTypeOk : Bool     -- payload content type is the Notary payload type
   rest : Bool              -- the remaining validations of processSignature accept (C02)
   decoded : Option Desc    -- json.Unmarshal(payload, &envelope.Payload{}).TargetArtifact; none = decode error
-  artifact : Desc          -- oci: the descriptor under verification; blob: the descriptor generated from the
-                           -- blob with the hash bound to the signature algorithm, mediaType = the caller's ("" = none)
+  artifact : Desc          -- oci: the descriptor under verification (registry: what Repository.Resolve answers);
+                           -- blob: the descriptor generated from the blob with the hash bound to the signature
+                           -- algorithm, mediaType = the caller's ("" = none)
   hashSupported : Bool     -- blob: the signature algorithm's hash has a digest algorithm
   required : List (String × String)   -- user metadata the caller requires
   reader : String          -- blob: how the reader delivers the bytes (concretisation only: must not matter)
   viaRegistry : Bool       -- oci: through notation.Verify and a repository listing this one signature
-                           -- (concretisation only: the same requirements reach the verifier)
+  refDigest : Option String  -- registry: the digest the reference pins (`repo@<digest>`); none = a tag reference,
+                           -- verified through a caller's Verifier that selects the policy by repository only and
+                           -- has no SkipVerify (the library's verifier has no policy for a reference without `@`)
+  resolveOk : Bool         -- registry: Repository.Resolve answers with a descriptor (`artifact`), not with an error
+  refForm : String         -- registry: how the repository part of the reference is spelled
+                           -- (concretisation only: must not matter)
   plugin : Bool            -- the signature names an installed verification plugin that owns the identity check
                            -- and approves (concretisation only: the payload is checked all the same)
   deriving Repr, FromJson, ToJson
@@ -49,7 +59,8 @@ structure Obs where
   accepted : Bool              -- the error returned is nil
   outcomeError : Option Bool   -- outcome.Error != nil (none when no outcome is returned)
   payload : Option Desc        -- on success: target descriptor decoded from outcome.EnvelopeContent.Payload
-  returned : Option Desc       -- blob, on success: descriptor returned by notation.VerifyBlob (annotations dropped)
+  returned : Option Desc       -- blob / registry, on success: descriptor returned by notation.VerifyBlob /
+                               -- notation.Verify (annotations dropped)
   deriving DecidableEq, Repr, FromJson, ToJson
 
 /-- `content.Equal` of oras-go -/
@@ -65,7 +76,11 @@ def metadataOk (p : Desc) (required : List (String × String)) : Bool :=
 
 def reject : Obs := { accepted := false, outcomeError := some true, payload := none, returned := none }
 
-def run (i : Input) : Obs :=
+/-- the verification goes through `notation.Verify` and a repository -/
+def registry (i : Input) : Bool := i.kind == .oci && i.viaRegistry
+
+/-- `verifier.Verify` / `notation.VerifyBlob` for the descriptor `i.artifact` -/
+def core (i : Input) : Obs :=
   if i.skip then
     -- outcome without envelope content; the blob wrapper returns the zero descriptor
     { accepted := true, outcomeError := some false, payload := none, returned := none }
@@ -84,7 +99,27 @@ def run (i : Input) : Obs :=
         let err := mismatch || (!i.required.isEmpty && !metadataOk p i.required)
         if err then reject
         else { accepted := true, outcomeError := some false, payload := some p,
-               returned := if i.kind == .blob then some { p with annotations := [] } else none }
+               returned := match i.kind with
+                 | .blob => some { p with annotations := [] }
+                 -- notation.Verify returns the descriptor the repository resolved the reference to
+                 | .oci => if i.viaRegistry then some { i.artifact with annotations := [] } else none }
+
+/-- `notation.Verify` before any signature is looked at: the reference must resolve, and a digest
+reference must name exactly the digest of the descriptor the repository answers with (string
+comparison: a digest of another algorithm is another digest). The library's verifier answers
+`SkipVerify` before anything is resolved; a caller's Verifier without `SkipVerify` (tag references)
+is only asked once the reference is resolved. -/
+def refused (i : Input) : Bool :=
+  registry i && match i.refDigest with
+    | some d => !i.skip && (!i.resolveOk || d != i.artifact.digest)
+    | none => !i.resolveOk
+
+def run (i : Input) : Obs := if refused i then reject else core i
+
+/-- the digest of the artifact the caller asked to verify: the one a digest reference pins, else the
+digest of the descriptor under verification -/
+def pinnedDigest (i : Input) : String :=
+  if registry i then i.refDigest.getD i.artifact.digest else i.artifact.digest
 
 /-! ### the property over observables -/
 
@@ -97,7 +132,7 @@ def clauses (i : Input) (o : Obs) : Clauses :=
     ("accepted_only_if_other_validations_accept", !acc || i.rest),
     ("accepted_only_if_target_is_the_artifact",
       !acc || match i.decoded with
-        | some p => p.digest == i.artifact.digest && p.size == i.artifact.size &&
+        | some p => p.digest == pinnedDigest i && p.size == i.artifact.size &&
             (match i.kind with
              | .oci => p.mediaType == i.artifact.mediaType
              | .blob => i.artifact.mediaType == "" || p.mediaType == i.artifact.mediaType)
@@ -110,6 +145,12 @@ def clauses (i : Input) (o : Obs) : Clauses :=
       !acc || o.payload == i.decoded),
     ("blob_returns_the_verified_descriptor",
       !(acc && i.kind == .blob) || match o.returned, i.decoded with
+        | some r, some p => r.digest == p.digest && r.size == p.size && r.mediaType == p.mediaType
+        | _, _ => false),
+    ("registry_accepted_only_if_reference_resolves",
+      !(acc && registry i) || i.resolveOk),
+    ("registry_returns_the_verified_descriptor",
+      !(acc && registry i) || match o.returned, i.decoded with
         | some r, some p => r.digest == p.digest && r.size == p.size && r.mediaType == p.mediaType
         | _, _ => false),
     ("error_and_outcome_consistent",
